@@ -15,6 +15,7 @@ pub open spec fn free_ok(s: AState) -> bool {
 }
 // `exact` = the free list after a batch kill is pinned exactly (C17, C20); otherwise only its
 // safety part (entries unoccupied and distinct, i.e. what Allocator::wf states) is used (C01, C02).
+#[verifier::opaque]
 pub open spec fn step_ok(pre: AState, st: Step, post: AState, exact: bool) -> bool {
     match st {
         Step::CreateNow => post == pre.create_now(),
@@ -35,6 +36,7 @@ pub open spec fn step_ok(pre: AState, st: Step, post: AState, exact: bool) -> bo
 }
 
 // abstract counterpart of Allocator::wf / wf_complete
+#[verifier::opaque]
 pub open spec fn ainv(s: AState) -> bool {
     &&& forall|i: u32| #![trigger s.hwv(i)] s.hwv(i) >= 0
     &&& forall|i: u32| #![trigger s.occ(i)] s.occ(i) ==> (i as nat) < s.max_id && s.hwv(i) >= 1
@@ -76,6 +78,7 @@ pub proof fn lemma_step_inv_create(pre: AState, now: bool)
         &&& post.killed == pre.killed
     }),
 {
+    reveal(step_ok); reveal(ainv);
     let post = if now { pre.create_now() } else { pre.create_deferred() };
     let i = pre.next_index();
     let n = pre.free.len() as int;
@@ -121,6 +124,7 @@ pub proof fn lemma_step_inv_kill(pre: AState, d: Seq<Entity>, k: nat, post: ASta
         forall|i: u32| #![trigger post.hwv(i)] post.hwv(i) == pre.hwv(i),
         forall|i: u32| #![trigger post.occ(i)] post.occ(i) ==> pre.occ(i),
 {
+    reveal(step_ok); reveal(ainv);
     lemma_kill_fold_frame(pre, d, k);
     lemma_kill_fold_distinct(pre, d, k);
     let f = pre.kill_fold(d, k);
@@ -181,6 +185,7 @@ pub proof fn lemma_step_inv_defer_kill(pre: AState, e: Entity)
     requires ainv(pre), pre.current(e),
     ensures ainv(pre.defer_kill(e)),
 {
+    reveal(step_ok); reveal(ainv);
     let post = pre.defer_kill(e);
     assert forall|j: u32| #![trigger post.hwv(j)] post.hwv(j) >= 0 by { assert(pre.hwv(j) >= 0); }
     assert forall|j: u32| #![trigger post.occ(j)] post.occ(j) implies (j as nat) < post.max_id && post.hwv(j) >= 1 by { assert(pre.occ(j)); }
@@ -200,6 +205,7 @@ pub proof fn lemma_step_inv_merge(pre: AState)
         ainv(pre.merged()),
         forall|j: u32| #![trigger pre.merged().occ(j)] pre.merged().occ(j) == (pre.occ(j) && !pre.killed.contains(j)),
 {
+    reveal(step_ok); reveal(ainv);
     broadcast use axiom_sorted_seq;
     let post = pre.merged();
     let ks = sorted_seq(pre.killed);
@@ -251,6 +257,7 @@ pub proof fn lemma_step_inv(pre: AState, st: Step, post: AState, exact: bool)
         // an index becomes occupied only by a creation at that index
         forall|i: u32| #![trigger post.occ(i)] post.occ(i) && !pre.occ(i) ==> is_create(st) && i == pre.next_index(),
 {
+    reveal(step_ok); reveal(ainv);
     match st {
         Step::CreateNow => { lemma_step_inv_create(pre, true); },
         Step::CreateDeferred => { lemma_step_inv_create(pre, false); },
@@ -269,6 +276,8 @@ pub proof fn lemma_history_inv(states: Seq<AState>, steps: Seq<Step>, exact: boo
     if n > 0 {
         lemma_history_inv(states, steps, exact, n - 1);
         lemma_step_inv(states[n - 1], steps[n - 1], states[n], exact);
+    } else {
+        reveal(ainv);
     }
 }
 
@@ -343,6 +352,7 @@ pub proof fn lemma_alive_until_vacated(pre: AState, st: Step, post: AState, exac
     requires ainv(pre), step_ok(pre, st, post, exact), pre.max_id < 0x100_0000 - 1, cur(pre, h), post.occ(h.0),
     ensures cur(post, h),
 {
+    reveal(step_ok); reveal(ainv);
     lemma_step_inv(pre, st, post, exact);
     if is_create(st) && h.0 == pre.next_index() {
         assert(!pre.occ(h.0));
@@ -355,6 +365,7 @@ pub proof fn lemma_step_complete(pre: AState, st: Step, post: AState)
     requires ainv(pre), acomplete(pre), step_ok(pre, st, post, true), pre.max_id < 0x100_0000 - 1,
     ensures acomplete(post),
 {
+    reveal(step_ok); reveal(ainv);
     lemma_step_inv(pre, st, post, true);
     match st {
         Step::CreateNow => {
@@ -458,6 +469,7 @@ pub proof fn lemma_fresh_index_only_when_full(states: Seq<AState>, steps: Seq<St
         // so the index handed out is smaller than the number of occupied indices after the step
         (states[a].next_index() as nat) < states[a].max_id ==> !states[a].occ(states[a].next_index()),
 {
+    reveal(step_ok); reveal(ainv);
     lemma_history_complete(states, steps, a);
     let s = states[a];
     if s.free.len() > 0 {
@@ -477,6 +489,7 @@ pub proof fn lemma_deterministic(s1: Seq<AState>, s2: Seq<AState>, steps: Seq<St
     ensures s1[n].core_eq(s2[n]), s1[n].free == s2[n].free,
     decreases n,
 {
+    reveal(step_ok); reveal(ainv);
     if n > 0 {
         lemma_deterministic(s1, s2, steps, n - 1);
         let p1 = s1[n - 1]; let p2 = s2[n - 1];
